@@ -322,7 +322,7 @@ class VQESolver:
 
         return energy
 
-    def operator_expectation(self, operator, var_params=None, n_active_mos=None, n_active_electrons=None, n_active_sos=None, spin=None, ref_state=Circuit()):
+    def operator_expectation(self, operator, var_params=None, n_active_mos=None, n_active_electrons=None, n_active_sos=None, spin=None, ref_state=None):
         """Obtains the operator expectation value of a given operator.
 
            Args:
@@ -345,7 +345,8 @@ class VQESolver:
                     mapping used is scbk and vqe_solver was initiated using a
                     QubitHamiltonian.
                 spin (int): Spin (n_alpha - n_beta)
-                ref_state (Circuit): A reference state preparation circuit
+                ref_state (Circuit): A reference state preparation circuit. Default: the
+                    reference circuit of the solver
 
            Returns:
                 float: operator expectation value computed by VQE using the
@@ -397,7 +398,7 @@ class VQESolver:
 
         try:
             self.ansatz.update_var_params(var_params)
-            circuit = ref_state + self.ansatz.circuit
+            circuit = (self.reference_circuit if ref_state is None else ref_state) + self.ansatz.circuit
             if self.projective_circuit:
                 circuit += self.projective_circuit
             expectation = self.backend.get_expectation_value(self.qubit_hamiltonian, circuit, **self.simulate_options)
@@ -407,7 +408,7 @@ class VQESolver:
 
         return expectation
 
-    def get_rdm(self, var_params, resample=False, sum_spin=True, ref_state=Circuit()):
+    def get_rdm(self, var_params, resample=False, sum_spin=True, ref_state=None):
         """Compute the 1- and 2- RDM matrices using the VQE energy evaluation.
         This method allows to combine the DMET problem decomposition technique
         with the VQE as an electronic structure solver. The RDMs are computed by
@@ -425,7 +426,8 @@ class VQESolver:
                 qubit terms' frequencies must be set to self.rdm_freq_dict
             sum_spin (bool): If True, the spin-summed 1-RDM and 2-RDM will be
                 returned. If False, the full 1-RDM and 2-RDM will be returned.
-            ref_state (Circuit): A reference state preparation circuit.
+            ref_state (Circuit): A reference state preparation circuit. Default:
+                the reference circuit of the solver.
 
         Returns:
             (numpy.array, numpy.array): One & two-particle spin summed RDMs if
@@ -452,7 +454,7 @@ class VQESolver:
             qb_freq_dict, qb_expect_dict = dict(), dict()
 
         # Build state preparation circuit. If noiseless, simulate and save the statevector
-        prep_circuit = ref_state + self.ansatz.circuit
+        prep_circuit = (self.reference_circuit if ref_state is None else ref_state) + self.ansatz.circuit
         if self.backend_options.get("noise_model") is None:
             _, sv = self.backend.simulate(prep_circuit, return_statevector=True)
 
@@ -541,7 +543,7 @@ class VQESolver:
 
         return rdm1_spin, rdm2_spin
 
-    def get_rdm_uhf(self, var_params, resample=False, ref_state=Circuit()):
+    def get_rdm_uhf(self, var_params, resample=False, ref_state=None):
         """Compute the 1- and 2- RDM matrices using the VQE energy evaluation.
         This method allows to combine the DMET problem decomposition technique
         with the VQE as an electronic structure solver. The RDMs are computed by
@@ -557,7 +559,8 @@ class VQESolver:
             resample (bool): Whether to resample saved frequencies. get_rdm with
                 savefrequencies=True must be called or a dictionary for each
                 qubit terms' frequencies must be set to self.rdm_freq_dict
-            ref_state (Circuit): A reference state preparation circuit.
+            ref_state (Circuit): A reference state preparation circuit. Default:
+                the reference circuit of the solver.
 
         Returns: TODO
             (numpy.array, numpy.array): One & two-particle spin summed RDMs if
@@ -586,7 +589,7 @@ class VQESolver:
             qb_freq_dict, qb_expect_dict = dict(), dict()
 
         # Build state preparation circuit. If noiseless, simulate and save the statevector
-        prep_circuit = ref_state + self.ansatz.circuit
+        prep_circuit = (self.reference_circuit if ref_state is None else ref_state) + self.ansatz.circuit
         if self.backend_options.get("noise_model") is None:
             _, sv = self.backend.simulate(prep_circuit, return_statevector=True)
 
